@@ -91,11 +91,11 @@ def run(ctx, which):
     exe, lib = ctx.build_harness("pool_replay", ["pool_replay.cpp"])
     env = ctx.occa_env(lib)
     t0 = time.time()
-    outs, crashes = run_replayer(ctx, exe, env, cases, timeout=3000)
+    outs, crashes = run_replayer(ctx, exe, env, cases, timeout=3000, max_restarts=150, give_up_ok=True)
     ctx.notes.append("replay %.0fs" % (time.time() - t0))
     t0 = time.time()
     for c in crashes:
-        if which == "C03":
+        if True:   # a crashing pool is reported by both checks (for C04 the events of that execution are lost)
             step = c.get("step", -1)
             b = cases[c["beh"]]
             op = b["steps"][step]["op"] if 0 <= step < len(b["steps"]) else "teardown"
